@@ -115,9 +115,17 @@ def rule_set(draw):
         rules.append({'name': f'R{n + 1}', 'match': ['and', [['match', 'contains', None, draw(st.sampled_from(['UBER', 'EATS', 'INN']))],
                                                              draw(st.sampled_from(TRUE_CONSTRAINTS['amount'] + TRUE_CONSTRAINTS['source']))]],
                       'category': f'Cat{n + 1}', 'subcategory': '', 'merchant': None, 'priority': None, 'tags': [], 'lets': [], 'fields': []})
+    vars_ = []
+    if draw(st.integers(0, 3)) == 0:
+        # a rule's let: shadows a top-level variable FOR THAT RULE ONLY: the rule reading the variable sees the top-level value wherever it stands in the file
+        vars_ = [['big', ['cmp', ['name', 'amount'], [['>', ['num', 1000]]]]]]
+        k = draw(st.integers(0, len(rules) - 1))
+        rules[k] = dict(rules[k], lets=[['big', ['cmp', ['name', 'amount'], [['>', ['num', 100]]]]]])
+        rules.append({'name': f'R{len(rules) + 3}', 'match': ['var', draw(st.sampled_from(['big', 'Big']))], 'category': 'CatBig', 'subcategory': 'SubBig', 'merchant': None,
+                      'priority': draw(st.sampled_from([None, 100])), 'tags': ['tbig'], 'lets': [], 'fields': []})
     rules = [rules[i] for i in draw(st.permutations(list(range(len(rules)))))]
     perms = draw(st.lists(st.permutations(list(range(len(rules)))), min_size=20, max_size=20)) if len(rules) > 5 else None
-    return {'rules': rules, 'perms': perms}
+    return {'rules': rules, 'perms': perms, 'vars': vars_}
 
 
 # ------------------------------------------------------------------------------------------------
@@ -173,7 +181,7 @@ def check(case, stats: Stats):
     rules = case['rules']
     rows = {}
     txn = lang.mk_txn(TXN)
-    rf0 = {'vars': [], 'transforms': [], 'rules': rules}
+    rf0 = {'vars': case.get('vars') or [], 'transforms': [], 'rules': rules}
     truths = []
     for r in rules:
         tr, _ = R.ref_truth(rf0, r, txn, rows)
@@ -196,7 +204,7 @@ def check(case, stats: Stats):
     for perm in perms:
         nperm += 1
         prules = [rules[i] for i in perm]
-        text = R.render_file({'vars': [], 'transforms': [], 'rules': prules})
+        text = R.render_file({'vars': case.get('vars') or [], 'transforms': [], 'rules': prules})
         try:
             eng = obs.load_engine(text, 'most_specific')
             if nperm % 2 == 0:
